@@ -149,6 +149,36 @@ REFACTORS = [
   dict(id="ref:twin-C37_3", patch="twins/C37_3/twin.diff", silent=["C08", "C37"]),
   dict(id="ref:twin-C25_1", patch="twins/C25_1/twin.diff", silent=["C25"]),
   dict(id="ref:twin-C04_2", patch="twins/C04_2/twin.diff", silent=["C04", "C08", "C09", "C10"]),
+  dict(id="ref:RF7-1", patch="refactors/RF7/patch1.diff", silent=["C04", "C09", "C11", "C12", "C16", "C17", "C40"]),
+  dict(id="ref:RF7-2", patch="refactors/RF7/patch2.diff", silent=["C04", "C09", "C11", "C12", "C16", "C17", "C40"]),
+  dict(id="ref:RF7-3", patch="refactors/RF7/patch3.diff", silent=["C04", "C09", "C11", "C12", "C16", "C17", "C40"]),
+  dict(id="ref:RF7-4", patch="refactors/RF7/patch4.diff", silent=["C04", "C09", "C11", "C12", "C16", "C17", "C40"]),
+  dict(id="ref:RF7-5", patch="refactors/RF7/patch5.diff", silent=["C04", "C09", "C11", "C12", "C16", "C17", "C40"]),
+  dict(id="ref:RF8-1", patch="refactors/RF8/patch1.diff", silent=["C05", "C09", "C11", "C12", "C16", "C17", "C22", "C32", "C40"]),
+  dict(id="ref:RF8-2", patch="refactors/RF8/patch2.diff", silent=["C05", "C09", "C11", "C12", "C16", "C17", "C22", "C32", "C40"]),
+  dict(id="ref:RF8-3", patch="refactors/RF8/patch3.diff", silent=["C05", "C09", "C11", "C12", "C16", "C17", "C22", "C32", "C40"]),
+  dict(id="ref:RF8-4", patch="refactors/RF8/patch4.diff", silent=["C05", "C09", "C11", "C12", "C16", "C17", "C22", "C32", "C40"]),
+  dict(id="ref:RF8-5", patch="refactors/RF8/patch5.diff", silent=["C05", "C09", "C11", "C12", "C16", "C17", "C22", "C32", "C40"]),
+  dict(id="ref:RF9-1", patch="refactors/RF9/patch1.diff", silent=["C11", "C12", "C24", "C25", "C38", "C16", "C17"]),
+  dict(id="ref:RF9-2", patch="refactors/RF9/patch2.diff", silent=["C11", "C12", "C24", "C25", "C38", "C16", "C17"]),
+  dict(id="ref:RF9-3", patch="refactors/RF9/patch3.diff", silent=["C11", "C12", "C24", "C25", "C38", "C16", "C17"]),
+  dict(id="ref:RF9-4", patch="refactors/RF9/patch4.diff", silent=["C11", "C12", "C24", "C25", "C38", "C16", "C17"]),
+  dict(id="ref:RF9-5", patch="refactors/RF9/patch5.diff", silent=["C11", "C12", "C24", "C25", "C38", "C16", "C17"]),
+  dict(id="ref:RF10-1", patch="refactors/RF10/patch1.diff", silent=["C02", "C09", "C10", "C11", "C12", "C27", "C32", "C40"]),
+  dict(id="ref:RF10-2", patch="refactors/RF10/patch2.diff", silent=["C02", "C09", "C10", "C11", "C12", "C27", "C32", "C40"]),
+  dict(id="ref:RF10-3", patch="refactors/RF10/patch3.diff", silent=["C02", "C09", "C10", "C11", "C12", "C27", "C32", "C40"]),
+  dict(id="ref:RF10-4", patch="refactors/RF10/patch4.diff", silent=["C02", "C09", "C10", "C11", "C12", "C27", "C32", "C40"]),
+  dict(id="ref:RF10-5", patch="refactors/RF10/patch5.diff", silent=["C02", "C09", "C10", "C11", "C12", "C27", "C32", "C40"]),
+  dict(id="ref:RF11-1", patch="refactors/RF11/patch1.diff", silent=["C31", "C19", "C11", "C13", "C12", "C36"]),
+  dict(id="ref:RF11-2", patch="refactors/RF11/patch2.diff", silent=["C31", "C19", "C11", "C13", "C12", "C36"]),
+  dict(id="ref:RF11-3", patch="refactors/RF11/patch3.diff", silent=["C31", "C19", "C11", "C13", "C12", "C36"]),
+  dict(id="ref:RF11-4", patch="refactors/RF11/patch4.diff", silent=["C31", "C19", "C11", "C13", "C12", "C36"]),
+  dict(id="ref:RF11-5", patch="refactors/RF11/patch5.diff", silent=["C31", "C19", "C11", "C13", "C12", "C36"]),
+  dict(id="ref:RF12-1", patch="refactors/RF12/patch1.diff", silent=["C08", "C12", "C37", "C26", "C07", "C39", "C03", "C32"]),
+  dict(id="ref:RF12-2", patch="refactors/RF12/patch2.diff", silent=["C08", "C12", "C37", "C26", "C07", "C39", "C03", "C32"]),
+  dict(id="ref:RF12-3", patch="refactors/RF12/patch3.diff", silent=["C08", "C12", "C37", "C26", "C07", "C39", "C03", "C32"]),
+  dict(id="ref:RF12-4", patch="refactors/RF12/patch4.diff", silent=["C08", "C12", "C37", "C26", "C07", "C39", "C03", "C32"]),
+  dict(id="ref:RF12-5", patch="refactors/RF12/patch5.diff", silent=["C08", "C12", "C37", "C26", "C07", "C39", "C03", "C32"]),
   dict(id="ref:sig-guard-forms", subs=[sub("support.py", "  if sig >= (1 << State.NSTATE):", "  if not (sig < 2 ** State.NSTATE):", nth=0)], silent=["C15"]),
 ]
 
